@@ -244,6 +244,49 @@ def main(tier, seed, replay=None):
                 run.violation("a problem whose weighted basis matrix is not finite exposes residuals / coefficients right after build()",
                               {"case": c, "observe": ob})
     run.coverage["overflowing_weight_cases"] = novf
+    # models with MANY basis functions (16 / 24 well-separated columns, 40 / 60 samples): the freshly built problem exposes residuals,
+    # coefficients and a Jacobian like any other, and the residuals are W(Y - Phi C) for the coefficients shown
+    wcases = []
+    for i in range(6 if tier == "quick" else 40):
+        fam = ["comb16", "comb24"][i % 2]
+        c = gen_problem(rng, quant=None, scalar=("f32" if i % 3 == 2 else "f64"), family=fam, N=(40 if fam == "comb16" else 60),
+                        weights=["none", "pos"][i % 2], ctor=CTORS[i % 4], builder_made=(i % 3 == 1))
+        c["ops"] = [["observe"], ["jac_quiet"], ["tables"]]
+        c["id"] = 60000 + i
+        wcases.append(c)
+    wres = run_harness(binp, "scenario", wcases, workdir, timeout_ms=20000, tag="wide")
+    nwide = 0
+    for c, r in zip(wcases, wres):
+        if r.get("panic") is not None or r.get("timeout") or (r.get("head") or {}).get("build") != "ok":
+            run.violation("builder panicked / hung / failed on a model with many basis functions", {"case": c, "result": r})
+            continue
+        st = dict(steps_by_op(r))
+        ob, jq, tb = st["observe"]["v"], st["jac_quiet"]["v"], st["tables"]["v"]
+        if tb["phi"] is None or not num.all_finite_mat(tb["phi"]):
+            continue
+        nwide += 1
+        if ob["resid"] is None or ob["coef"] is None or jq is None:
+            run.violation("a freshly built problem over %d basis functions exposes no residuals / coefficients / Jacobian although the model "
+                          "evaluates at its parameters" % c["meta"]["M"], {"case": c, "observe": ob, "jacobian_present": jq is not None})
+            continue
+        # residuals = W (Y - Phi C) for the coefficients shown (plain products in exact rational arithmetic)
+        wv = num.weights_of(c)
+        Yc = num.obs_of(c)
+        phi = [[frac(h) for h in col] for col in tb["phi"]["cols"]]
+        N, S = c["meta"]["N"], len(Yc)
+        err = nrm = Fraction(0)
+        for s_ in range(S):
+            cf = [frac(h) for h in ob["coef"]["cols"][s_]]
+            for i_ in range(N):
+                w_i = Fraction(1) if wv is None else frac(wv[i_])
+                want = w_i * (frac(Yc[s_][i_]) - sum(phi[j_][i_] * cf[j_] for j_ in range(len(cf))))
+                err += (want - frac(ob["resid"][s_ * N + i_])) ** 2
+                nrm += (w_i * frac(Yc[s_][i_])) ** 2 + (w_i * sum(abs(phi[j_][i_] * cf[j_]) for j_ in range(len(cf)))) ** 2
+        tol = Fraction(1, 10 ** 20) if c["scalar"] == "f64" else Fraction(1, 10 ** 8)
+        if err > tol * max(nrm, Fraction(1, 10 ** 30)) * c["meta"]["M"] ** 2:
+            run.violation("a freshly built problem over %d basis functions: residuals are not W(Y - Phi C) for the coefficients shown"
+                          % c["meta"]["M"], {"case": c, "observe": ob})
+    run.coverage["many_basis_function_cases"] = nwide
     run.coverage.update({
         "states_after_build_with_large_thresholds": neps, "of_which_skipped_ill_conditioned": nskip_eps,
         "evaluations": len(cases), "distinct_nontrivial": len(distinct),
